@@ -393,8 +393,8 @@ func (l *NativeArrayList[T]) ConcatVal(other Value) (Value, Value) {
 			for i, element := range *l {
 				newList[i] = element.ToValue()
 			}
-			for i, element := range o.Elements() {
-				newList[i+o.Length()] = element
+			for _, element := range o.Elements() {
+				newList = append(newList, element)
 			}
 			return Ref(&newList), Undefined
 		}
